@@ -273,6 +273,39 @@ def check(chk, fx):
                     chk.ok("IMM-9", s, "type '%s' owns its data or points to const" % t[:60])
 
 
+    # ---------------------------------------------------------------- IMM-10 grammar objects own their members
+    owners = ("ctpg::detail::rule", "ctpg::term", "ctpg::char_term", "ctpg::string_term", "ctpg::regex_term",
+              "ctpg::custom_term", "ctpg::typed_term", "ctpg::nterm")
+    chk.rule("IMM-10", "members of the grammar objects stored in a parser (rules, terms, nterms): owned, never references", 12)
+    seen = set()
+    lvalue_witness = False
+    for rq in owners:
+        for u, r in fx.records(rq):
+            if r["tmpl"] == "pattern":
+                continue
+            for f in r["fields"]:
+                t = u.TC(f["t"])
+                key = (rq, f["n"], t)
+                if key in seen:
+                    continue
+                seen.add(key)
+                if rq == "ctpg::detail::rule" and f["n"] == "f" and "join_functor" in t:
+                    lvalue_witness = True
+                s = "include/ctpg/ctpg.hpp:%s %s::%s" % (f["l"], rq, f["n"])
+                if t.rstrip().endswith("&"):
+                    chk.violation("IMM-10", s, "IMM-10:%s::%s:reference" % (rq, f["n"]),
+                                  "in an instantiation this member has the reference type '%s': the parser refers to an "
+                                  "object of the caller instead of owning a copy (later changes to it change what the "
+                                  "parser does; a non-const reference lets parse() modify it)" % t[:120])
+                elif _points_to_mutable(t):
+                    chk.violation("IMM-10", s, "IMM-10:%s::%s:pointer" % (rq, f["n"]),
+                                  "member of type '%s' points to mutable data outside the object" % t[:120])
+                else:
+                    chk.ok("IMM-10", s, "type '%s' is owned" % t[:70])
+    if not lvalue_witness:
+        chk.incomplete("IMM-10: the witness rule built from a named (lvalue) functor object was not found")
+
+
 def _ctor_arg_is_const(fn, a):
     t = fn.facts.T(a.get("t"))
     return t.startswith("const ")
